@@ -52,6 +52,40 @@ if op in ("append", "extend"):
             c.coords, c.atomic_charges
     except BaseException as ex:
         bad.append(f"conformer view of an appended conformer raised {type(ex).__name__}")
+    # a geometry with another number of atoms is refused, and the refused call leaves the ensemble as it was
+    shapes0 = (e.coords.shape, e.atomic_charges.shape, e.weights.shape)
+    c0 = e.coords.copy()
+    other = ml.Molecule(n_atoms=e.n_atoms + 1)
+    for how in ("append", "extend"):
+        try:
+            (e.append(other) if how == "append" else e.extend([other, other]))
+            bad.append(f"{how} accepted a geometry with {other.n_atoms} atoms into an ensemble of {e.n_atoms}-atom conformers")
+        except BaseException:
+            pass
+        if (e.coords.shape, e.atomic_charges.shape, e.weights.shape) != shapes0 or not np.array_equal(e.coords, c0):
+            bad.append(f"a refused {how} (wrong atom count) left the ensemble with coords {e.coords.shape}, charges {e.atomic_charges.shape}, weights {e.weights.shape} (before: {shapes0})")
+            break
+elif op == "transform":
+    # collective transformations with well-formed and ill-formed arguments: whatever the call does, the ensemble stays rectangular
+    for nc in (1, 2, 3):
+        e = ml.ConformerEnsemble(src[0], n_conformers=nc)
+        e.coords = src.coords[:nc]
+        want = (e.coords.shape, e.atomic_charges.shape, e.weights.shape)
+        th = 0.3
+        Rz = np.array([[np.cos(th), -np.sin(th), 0], [np.sin(th), np.cos(th), 0], [0, 0, 1.0]])
+        calls = [("rotate(3x3)", lambda: e.rotate(Rz)), ("rotate(stack of 2)", lambda: e.rotate(np.stack([Rz, Rz]))),
+                 ("rotate(stack of 3)", lambda: e.rotate(np.stack([Rz, Rz, Rz]))), ("rotate(3x4)", lambda: e.rotate(np.ones((3, 4)))),
+                 ("translate(3,)", lambda: e.translate(np.array([1.0, 2.0, 3.0]))), ("translate(4,)", lambda: e.translate(np.ones(4))),
+                 ("translate(nc+1,3)", lambda: e.translate(np.ones((nc + 1, 3)))), ("scale(2)", lambda: e.scale(2.0)), ("invert", lambda: e.invert())]
+        for nm, f in calls:
+            try:
+                f()
+            except BaseException:
+                pass
+            got = (e.coords.shape, e.atomic_charges.shape, e.weights.shape)
+            if got != want:
+                bad.append(f"after {nm} on a {nc}-conformer ensemble: coords {got[0]}, charges {got[1]}, weights {got[2]} (before: {want})")
+                break
 elif op == "nested-iteration":
     pairs = [(a._conf_id, b._conf_id) for a in src for b in src]
     n = src.n_conformers
